@@ -17,6 +17,15 @@
 //	         entries named ...FeeTooSmallUtxo / ...MaxTxSizeUtxo are read)
 //	calc     common.CalculateMinFee (arithmetic slice only)
 //
+// The phase-2 flag: a row / carrier with p2 = true is built with is_valid =
+// false in its four-element envelope (0xf4 instead of 0xf5: same length, same
+// content) and must decode with IsValid() = false.  The specification's
+// verdicts do not read the flag (invariant FlagIrrelevant), so the flagged
+// transaction is judged by the same two rules at the same observation points;
+// the other entries of the rule list (among them the era's is_valid rule, which
+// rejects a flagged transaction without redeemers) are not read, as before.
+// Keys of flagged cases end in ":p2invalid" (before ":at=...").
+//
 // The expected verdict is the TLC row's; the driver only maps the abstract
 // numbers to concrete ones:
 //
@@ -36,6 +45,7 @@ import (
 	"math/big"
 	"math/rand"
 	"os"
+	"path/filepath"
 	"reflect"
 	"runtime"
 	"sort"
@@ -83,8 +93,20 @@ type sizeRow struct {
 	FeeVerdict  string `json:"feeVerdict"`
 	SizeVerdict string `json:"sizeVerdict"`
 	Silent      bool   `json:"silent"`
+	// is_valid = false
+	P2 bool `json:"p2"`
+	// silent cases: the verdict both readings of the size agree on, or "either"
+	BothReadings string `json:"bothReadings"`
 	// the spec tolerates an over-estimated fee size here (one-directional property)
 	TolerateOver bool `json:"tolerateOver"`
+}
+
+// carrierRow is one kind of transaction an arithmetic point is replayed on.
+type carrierRow struct {
+	Era string `json:"era"`
+	Env int    `json:"env"`
+	P2  bool   `json:"p2"`
+	Sub int    `json:"sub"` // length of the transaction - fee-relevant size
 }
 
 type classRow struct {
@@ -168,6 +190,7 @@ type knobs struct {
 	coinWide bool   // output amount 2000000 in 9 bytes instead of 5
 	feeW     int    // bytes of the fee integer, 0 = shortest
 	filler   int    // auxiliary data {0: bytes(filler)}; -1 = null
+	p2       bool   // is_valid = false (Alonzo..Conway only; Dijkstra's decoder refuses it); content, not encoding
 }
 
 // padOf is |orig| - |canonical re-encoding| of a transaction built with k.
@@ -253,7 +276,13 @@ func buildTx(k knobs, fee uint64) []byte {
 	t.raw(b.b)
 	t.mapn(0) // witness set
 	if k.env == 4 {
-		t.b = append(t.b, 0xf5) // is_valid
+		if k.p2 {
+			t.b = append(t.b, 0xf4) // is_valid = false
+		} else {
+			t.b = append(t.b, 0xf5) // is_valid = true
+		}
+	} else if k.p2 {
+		panic("a three-element envelope cannot carry is_valid = false")
 	}
 	if k.filler < 0 {
 		t.b = append(t.b, 0xf6)
@@ -351,7 +380,6 @@ type ruleFn = common.UtxoValidationRuleFunc
 type eraDef struct {
 	name     string
 	envs     []int
-	mid      bool // Alonzo..Conway
 	decodeTx func([]byte) (common.Transaction, error)
 	pparams  func(a, b, max uint, alt bool) common.ProtocolParameters
 	minFee   func(common.Transaction, common.ProtocolParameters) (uint64, error)
@@ -391,7 +419,7 @@ func eras() []*eraDef {
 			maxRule: mary.UtxoValidateMaxTxSizeUtxo, rules: mary.UtxoValidationRules,
 		},
 		{
-			name: "alonzo", envs: []int{4}, mid: true,
+			name: "alonzo", envs: []int{4},
 			decodeTx: func(b []byte) (common.Transaction, error) { return alonzo.NewAlonzoTransactionFromCbor(b) },
 			pparams: func(a, b, max uint, _ bool) common.ProtocolParameters {
 				return &alonzo.AlonzoProtocolParameters{MinFeeA: a, MinFeeB: b, MaxTxSize: max}
@@ -400,7 +428,7 @@ func eras() []*eraDef {
 			maxRule: alonzo.UtxoValidateMaxTxSizeUtxo, rules: alonzo.UtxoValidationRules,
 		},
 		{
-			name: "babbage", envs: []int{4}, mid: true,
+			name: "babbage", envs: []int{4},
 			decodeTx: func(b []byte) (common.Transaction, error) { return babbage.NewBabbageTransactionFromCbor(b) },
 			pparams: func(a, b, max uint, _ bool) common.ProtocolParameters {
 				return &babbage.BabbageProtocolParameters{MinFeeA: a, MinFeeB: b, MaxTxSize: max}
@@ -409,7 +437,7 @@ func eras() []*eraDef {
 			maxRule: babbage.UtxoValidateMaxTxSizeUtxo, rules: babbage.UtxoValidationRules,
 		},
 		{
-			name: "conway", envs: []int{4}, mid: true,
+			name: "conway", envs: []int{4},
 			decodeTx: func(b []byte) (common.Transaction, error) { return conway.NewConwayTransactionFromCbor(b) },
 			pparams: func(a, b, max uint, _ bool) common.ProtocolParameters {
 				return &conway.ConwayProtocolParameters{MinFeeA: a, MinFeeB: b, MaxTxSize: max,
@@ -444,11 +472,63 @@ func eraByName(n string) *eraDef {
 	return nil
 }
 
-func (e *eraDef) sub(env int) int {
-	if e.mid && env == 4 {
-		return 1
+func p2Suffix(p2 bool) string {
+	if p2 {
+		return ":p2invalid"
 	}
-	return 0
+	return ""
+}
+
+type carrier struct {
+	era *eraDef
+	carrierRow
+}
+
+// readCarriers reads the specification's carriers (next to the rows) - the
+// eras, envelopes and flags an arithmetic point is replayed on.
+func readCarriers(rep *vh.Reporter, rowsPath string) []carrier {
+	path := filepath.Join(filepath.Dir(rowsPath), "carriers.ndjson")
+	rows, err := vh.ReadNDJSON[carrierRow](path)
+	if err != nil || len(rows) == 0 {
+		rep.Dead("carriers %s: %v (%d rows)", path, err, len(rows))
+	}
+	order := map[string]int{}
+	for i, e := range eras() {
+		order[e.name] = i
+	}
+	sort.SliceStable(rows, func(i, j int) bool {
+		a, b := rows[i], rows[j]
+		if a.Era != b.Era {
+			return order[a.Era] < order[b.Era]
+		}
+		if a.Env != b.Env {
+			return a.Env < b.Env
+		}
+		return !a.P2 && b.P2
+	})
+	var out []carrier
+	flagged := 0
+	for _, r := range rows {
+		e := eraByName(r.Era)
+		if e == nil {
+			rep.Dead("carrier of unknown era %q", r.Era)
+		}
+		ok := false
+		for _, env := range e.envs {
+			ok = ok || env == r.Env
+		}
+		if !ok || (r.P2 && r.Env != 4) || r.Sub < 0 || r.Sub > 1 {
+			rep.Dead("carrier %+v cannot be built", r)
+		}
+		if r.P2 {
+			flagged++
+		}
+		out = append(out, carrier{e, r})
+	}
+	if flagged == 0 {
+		rep.Dead("the specification lists no flagged carrier: the phase-2 dimension is missing")
+	}
+	return out
 }
 
 func ruleName(f ruleFn) string {
@@ -514,7 +594,7 @@ func initLedger(rep *vh.Reporter) {
 	}}).Build()
 }
 
-func decode(rep *vh.Reporter, era *eraDef, raw []byte, fee uint64, what string) common.Transaction {
+func decode(rep *vh.Reporter, era *eraDef, raw []byte, fee uint64, p2 bool, what string) common.Transaction {
 	tx, err := era.decodeTx(raw)
 	if err != nil {
 		rep.Dead("%s: cannot decode the transaction built for %s: %v (%x)", era.name, what, err, raw)
@@ -524,6 +604,9 @@ func decode(rep *vh.Reporter, era *eraDef, raw []byte, fee uint64, what string) 
 	}
 	if len(tx.Cbor()) != len(raw) {
 		rep.Dead("%s %s: decoded transaction keeps %d bytes of %d", era.name, what, len(tx.Cbor()), len(raw))
+	}
+	if tx.IsValid() == p2 {
+		rep.Dead("%s %s: built with is_valid = %v, decoded with IsValid() = %v", era.name, what, !p2, tx.IsValid())
 	}
 	if len(tx.Inputs()) != 1 || len(tx.Outputs()) != 1 || tx.TTL() != ttlValue {
 		rep.Dead("%s %s: decoded transaction lost its content (inputs %d outputs %d ttl %d)", era.name, what,
@@ -713,6 +796,7 @@ func sizeSlice(rep *vh.Reporter, rs *reports, rng *rand.Rand, path string, only 
 	overSize := map[string]int{}
 	overExample := map[string]any{}
 	noFix := 0
+	flagged := map[string]int{}
 	sampled := map[string]bool{}
 	for ri := range rows {
 		r := &rows[ri]
@@ -727,6 +811,8 @@ func sizeSlice(rep *vh.Reporter, rs *reports, rng *rand.Rand, path string, only 
 		if !ok {
 			rep.Dead("no encoding with head %s and %d bytes of padding", r.Hd, r.Pad)
 		}
+		k.p2 = r.P2
+		p2s := p2Suffix(r.P2)
 		// auxiliary data of a few bytes in every third case (not padding: it is
 		// content, the canonical re-encoding has it too)
 		if ri%3 == 1 {
@@ -761,8 +847,8 @@ func sizeSlice(rep *vh.Reporter, rs *reports, rng *rand.Rand, path string, only 
 		d := int64(L) - r.Orig
 		max := r.Max + d
 		caseKey := fmt.Sprintf("era=%s:env=%d:hd=%s:pad=%d:a=%d:b=%d:fee=mf%s:max=orig%s",
-			r.Era, r.Env, r.Hd, r.Pad, r.A, r.B, rel(r.Fee-r.MinFee), rel(r.Max-r.Orig))
-		tx := decode(rep, era, raw, fee, caseKey)
+			r.Era, r.Env, r.Hd, r.Pad, r.A, r.B, rel(r.Fee-r.MinFee), rel(r.Max-r.Orig)) + p2s
+		tx := decode(rep, era, raw, fee, r.P2, caseKey)
 		alt := era.name == "dijkstra" && ri%2 == 1
 		pp := era.pparams(uint(r.A), uint(r.B), uint(max), alt)
 		replay := map[string]any{"row": *r, "tx_cbor": fmt.Sprintf("%x", raw), "length": L,
@@ -773,22 +859,37 @@ func sizeSlice(rep *vh.Reporter, rs *reports, rng *rand.Rand, path string, only 
 			continue
 		}
 		rep.Case(caseKey, true)
+		if r.P2 {
+			flagged[r.Era]++
+		}
 		if len(o.listNote) > 0 {
 			replay["list_notes"] = o.listNote
 		}
-		feeKey := fmt.Sprintf("fee:era=%s:env=%d:hd=%s:pad=%d:a=%d:b=%d:fee=mf%s", r.Era, r.Env, r.Hd, r.Pad, r.A, r.B, rel(r.Fee-r.MinFee))
-		maxKey := fmt.Sprintf("max:era=%s:env=%d:hd=%s:pad=%d:max=orig%s", r.Era, r.Env, r.Hd, r.Pad, rel(r.Max-r.Orig))
+		feeKey := fmt.Sprintf("fee:era=%s:env=%d:hd=%s:pad=%d:a=%d:b=%d:fee=mf%s", r.Era, r.Env, r.Hd, r.Pad, r.A, r.B, rel(r.Fee-r.MinFee)) + p2s
+		maxKey := fmt.Sprintf("max:era=%s:env=%d:hd=%s:pad=%d:max=orig%s", r.Era, r.Env, r.Hd, r.Pad, rel(r.Max-r.Orig)) + p2s
 		if r.Silent {
-			silent[fmt.Sprintf("%s env=%d hd=%s: TxSizeForFee = length%s", r.Era, r.Env, r.Hd, rel(int64(o.txSize-L)))]++
+			silent[fmt.Sprintf("%s env=%d hd=%s%s: TxSizeForFee = length%s", r.Era, r.Env, r.Hd, p2s, rel(int64(o.txSize-L)))]++
+			// the statement does not fix the size here, but it has only two
+			// readings: where both give the same verdict, that verdict binds
+			if w := specFee(r.BothReadings); w != "either" {
+				if o.feeRule != w {
+					rs.disagree(feeKey+":at=feerule", fmt.Sprintf("%s: UtxoValidateFeeTooSmallUtxo says %s (%s); the specification says %s "+
+						"whether the size is the length or the length - 1 (%v)", era.name, o.feeRule, o.feeErr, r.BothReadings, replay["concrete"]), replay)
+				}
+				if o.listFee != "skipped" && o.listFee != w {
+					rs.disagree(feeKey+":at=list", fmt.Sprintf("%s: the entries of UtxoValidationRules say %s; the specification says %s "+
+						"whether the size is the length or the length - 1 (%v)", era.name, o.listFee, r.BothReadings, replay["concrete"]), replay)
+				}
+			}
 		} else {
 			wantSize := int(r.Size + d)
 			wantMin := big.NewInt(r.MinFee + r.A*d)
-			szKey := fmt.Sprintf("txsize:era=%s:env=%d:hd=%s:pad=%d", r.Era, r.Env, r.Hd, r.Pad)
+			szKey := fmt.Sprintf("txsize:era=%s:env=%d:hd=%s:pad=%d", r.Era, r.Env, r.Hd, r.Pad) + p2s
 			if r.TolerateOver && o.txSizeErr == nil && o.txSize > wantSize {
 				// over-estimated size: the minimum is only higher. Recorded, and
 				// the one direction the property states is still enforced: no
 				// acceptance below the stated minimum.
-				ok := fmt.Sprintf("%s env=%d hd=indef: TxSizeForFee = length%s (specification: length%s)", r.Era, r.Env,
+				ok := fmt.Sprintf("%s env=%d hd=indef%s: TxSizeForFee = length%s (specification: length%s)", r.Era, r.Env, p2s,
 					rel(int64(o.txSize-L)), rel(int64(wantSize-L)))
 				overSize[ok]++
 				if overExample[r.Era] == nil && r.A > 0 && r.Fee == r.MinFee && o.feeRule == "tooSmall" {
@@ -824,13 +925,27 @@ func sizeSlice(rep *vh.Reporter, rs *reports, rng *rand.Rand, path string, only 
 				"(nothing is accepted below the stated minimum), so not a violation of the one-directional property",
 			"cases": overSize, "examples": overExample}
 	}
+	if len(flagged) > 0 {
+		rep.Extra["size_cases_flagged_is_valid_false "+only] = flagged
+		// the specification flags Alonzo..Conway only (CanFlag): say what the
+		// Dijkstra decoder does with is_valid = false, so that a decoder that
+		// starts to admit it shows up as a hole of the case space
+		dj := eraByName("dijkstra")
+		raw := buildTx(knobs{env: 4, hd: "min", ttlW: 1, filler: -1, p2: true}, 1000)
+		if tx, err := dj.decodeTx(raw); err != nil {
+			rep.Extra["dijkstra_four_element_is_valid_false"] = "refused by the decoder (" + err.Error() + "): not part of the case space"
+		} else {
+			rep.Extra["dijkstra_four_element_is_valid_false"] = fmt.Sprintf("DECODES with IsValid() = %v: the specification's CanFlag "+
+				"excludes Dijkstra, flagged Dijkstra transactions are not covered", tx.IsValid())
+		}
+	}
 	if noFix > 0 {
 		rep.Extra["size_cases_without_fee_width_fixed_point "+only] = noFix
 	}
 }
 
 func sizeKey(r *sizeRow) string {
-	return fmt.Sprintf("%s|%d|%s|%03d|%03d|%06d|%08d|%09d|%09d", r.Era, r.Env, r.Hd, r.Orig, r.Pad, r.A, r.B, r.Fee, r.Max)
+	return fmt.Sprintf("%s|%d|%s|%03d|%03d|%06d|%08d|%09d|%09d|%v", r.Era, r.Env, r.Hd, r.Orig, r.Pad, r.A, r.B, r.Fee, r.Max, r.P2)
 }
 
 // ---------------------------------------------------------------- arithmetic slice
@@ -851,19 +966,10 @@ func arithSlice(rep *vh.Reporter, rs *reports, rng *rand.Rand, path string) {
 	two64 := new(big.Int).Lsh(big.NewInt(1), 64)
 	M := new(big.Int).Div(two64, big.NewInt(W)) // exact: W is a power of two
 	scale := func(x int64) uint64 { return new(big.Int).Mul(big.NewInt(x), M).Uint64() }
-	type eraEnv struct {
-		era *eraDef
-		env int
-	}
-	var ee []eraEnv
-	for _, e := range eras() {
-		for _, env := range e.envs {
-			if e.name == "dijkstra" && env == 4 {
-				continue // the property is silent on its fee size
-			}
-			ee = append(ee, eraEnv{e, env})
-		}
-	}
+	// (the specification lists no carrier whose fee size the property is silent on)
+	ee := readCarriers(rep, path)
+	thorough := vh.Tier() == "thorough"
+	flaggedRows := 0
 	minReal := map[string]int{}
 	realRows, calcRows := 0, 0
 	byCls := map[string]int{}
@@ -897,9 +1003,14 @@ func arithSlice(rep *vh.Reporter, rs *reports, rng *rand.Rand, path string) {
 		})
 		// real transactions whose fee-relevant size is exactly r.S
 		for ei, x := range ee {
-			target := int(r.S) + x.era.sub(x.env)
+			// quick tier: a flagged carrier takes every third point, every point on
+			// an overflow edge and every point exactly at the minimum
+			if x.P2 && !thorough && (ri+ei)%3 != 0 && r.Edge == "inner" && r.Cls != "at" {
+				continue
+			}
+			target := int(r.S) + x.Sub
 			hd := []string{"min", "min", "wide"}[(ri+ei)%3]
-			k, ok := fitKnobs(knobs{env: x.env, hd: hd}, target)
+			k, ok := fitKnobs(knobs{env: x.Env, hd: hd, p2: x.P2}, target)
 			if !ok {
 				continue
 			}
@@ -907,8 +1018,8 @@ func arithSlice(rep *vh.Reporter, rs *reports, rng *rand.Rand, path string) {
 				minReal[x.era.name] = int(r.S)
 			}
 			raw := buildTx(k, fee)
-			ekey := fmt.Sprintf("%s:era=%s:env=%d", key, x.era.name, x.env)
-			tx := decode(rep, x.era, raw, fee, ekey)
+			ekey := fmt.Sprintf("%s:era=%s:env=%d%s", key, x.era.name, x.Env, p2Suffix(x.P2))
+			tx := decode(rep, x.era, raw, fee, x.P2, ekey)
 			pp := x.era.pparams(uint(a), uint(b), uint(len(raw)), (ri+ei)%2 == 1)
 			erep := map[string]any{"row": *r, "era": x.era.name, "tx_cbor": fmt.Sprintf("%x", raw), "length": len(raw),
 				"concrete": replay["concrete"]}
@@ -919,12 +1030,15 @@ func arithSlice(rep *vh.Reporter, rs *reports, rng *rand.Rand, path string) {
 				continue
 			}
 			realRows++
+			if x.P2 {
+				flaggedRows++
+			}
 			rep.Case(ekey, true)
 			var wm *big.Int
 			if r.Verdict != "overflow" {
 				wm = wantMin
 			}
-			checkFee(rs, x.era, o, fmt.Sprintf("txsize:era=%s:env=%d:hd=%s:s=%d", x.era.name, x.env, hd, r.S), ekey, r.Verdict, int(r.S), wm, erep)
+			checkFee(rs, x.era, o, fmt.Sprintf("txsize:era=%s:env=%d:hd=%s:s=%d%s", x.era.name, x.Env, hd, r.S, p2Suffix(x.P2)), ekey, r.Verdict, int(r.S), wm, erep)
 			if sampled < 2 && r.Edge == "first" && r.Cls == "add" && x.era.name == "babbage" {
 				sampled++
 				rep.Sample(map[string]any{"case": ekey, "spec": r.Verdict, "class": r.Cls, "concrete": replay["concrete"],
@@ -936,6 +1050,7 @@ func arithSlice(rep *vh.Reporter, rs *reports, rng *rand.Rand, path string) {
 		"scale":                          fmt.Sprintf("numbers multiplied by 2^64/W = %v", M),
 		"rows_on_CalculateMinFee":        calcRows,
 		"cases_on_real_transactions":     realRows,
+		"of_them_flagged_is_valid_false": flaggedRows,
 		"smallest_fee_size_of_a_real_tx": minReal,
 		"rows_by_class":                  byCls,
 	}
@@ -994,21 +1109,22 @@ func classSlice(rep *vh.Reporter, rs *reports, rng *rand.Rand, path string) {
 	if vh.Tier() == "thorough" {
 		rounds = 12
 	}
-	for _, era := range eras() {
-		for _, env := range era.envs {
-			if era.name == "dijkstra" && env == 4 {
-				continue
-			}
+	for _, cr := range readCarriers(rep, path) {
+		{
+			era, env, p2s := cr.era, cr.Env, p2Suffix(cr.P2)
 			for round := 0; round < rounds; round++ {
+				if cr.P2 && vh.Tier() != "thorough" && round%2 == 0 {
+					continue // quick tier: a flagged carrier takes every second round
+				}
 				hd := []string{"min", "wide", "min"}[round%3]
-				k := knobs{env: env, hd: hd, ttlW: []int{1, 1, 2, 9}[round%4], feeW: 9, filler: -1}
+				k := knobs{env: env, hd: hd, ttlW: []int{1, 1, 2, 9}[round%4], feeW: 9, filler: -1, p2: cr.P2}
 				if round > 0 {
 					k.filler = rng.Intn(160)
 					k.bodyWide = rng.Intn(2) == 0
 					k.inIndef = rng.Intn(2) == 0
 				}
 				L := len(buildTx(k, 0))
-				s := L - era.sub(env)
+				s := L - cr.Sub
 				S := big.NewInt(int64(s))
 				q := new(big.Int).Div(maxU, S) // largest a whose product fits
 				p := new(big.Int).Mul(q, S)
@@ -1049,15 +1165,15 @@ func classSlice(rep *vh.Reporter, rs *reports, rng *rand.Rand, path string) {
 						}
 						cls, min := classify(rp.a, s, rp.b, fee)
 						want := table[cls]
-						key := fmt.Sprintf("big:era=%s:env=%d:rep=%s:fee=%s", era.name, env, rp.name, fn)
+						key := fmt.Sprintf("big:era=%s:env=%d:rep=%s:fee=%s", era.name, env, rp.name, fn) + p2s
 						if rp.name == "rnd" {
-							key = fmt.Sprintf("big:era=%s:env=%d:rep=rnd:cls=%s:fee=%s", era.name, env, cls, fn)
+							key = fmt.Sprintf("big:era=%s:env=%d:rep=rnd:cls=%s:fee=%s", era.name, env, cls, fn) + p2s
 						}
 						raw := buildTx(k, fee.Uint64())
 						if len(raw) != L {
 							rep.Dead("length changed with the fee: %d vs %d", len(raw), L)
 						}
-						tx := decode(rep, era, raw, fee.Uint64(), key)
+						tx := decode(rep, era, raw, fee.Uint64(), cr.P2, key)
 						pp := era.pparams(uint(rp.a.Uint64()), uint(rp.b.Uint64()), uint(L), round%2 == 1)
 						replay := map[string]any{"era": era.name, "class": cls, "tx_cbor": fmt.Sprintf("%x", raw), "length": L,
 							"concrete": fmt.Sprintf("a=%v size=%d b=%v fee=%v", rp.a, s, rp.b, fee)}
@@ -1068,7 +1184,10 @@ func classSlice(rep *vh.Reporter, rs *reports, rng *rand.Rand, path string) {
 						}
 						rep.Case(fmt.Sprintf("%s:s=%d", key, s), true)
 						covered[era.name+":"+cls]++
-						checkFee(rs, era, o, fmt.Sprintf("txsize:era=%s:env=%d:hd=%s:big", era.name, env, hd), key, want, s, min, replay)
+						if cr.P2 {
+							covered[era.name+":p2invalid:"+cls]++
+						}
+						checkFee(rs, era, o, fmt.Sprintf("txsize:era=%s:env=%d:hd=%s:big", era.name, env, hd)+p2s, key, want, s, min, replay)
 						if sampled < 1 && cls == "add" && fn == "wrapped" {
 							sampled++
 							rep.Sample(map[string]any{"case": key, "class": cls, "spec": want, "concrete": replay["concrete"],
